@@ -576,7 +576,7 @@ SUBCHECKS = [
              rule="non-trivial = different vertex counts per direction, or vertex spacing >= 2"),
     SubCheck("quads", _quad_cases, check_quads, quick=150, thorough=600,
              rule="non-trivial = nu != nv"),
-    SubCheck("trimmed", _trim_cases, check_trimmed, quick=200, thorough=800,
+    SubCheck("trimmed", _trim_cases, check_trimmed, quick=150, thorough=800, shards_quick=2,
              rule="every case is trimmed (polygon / spline trims of both senses); not-simple generated polygons are skipped and counted"),
     SubCheck("exports", _export_cases, check_exports, quick=200, thorough=800,
              rule="non-trivial = container of >= 2 surfaces, or spacing >= 2, or nu != nv"),
